@@ -513,3 +513,112 @@ func copyDirFlat(src, dst string) error {
 	}
 	return nil
 }
+
+// c24load (E-sched): DB.Load of a backup that needs several KVLoader batches, with badger's writer
+// goroutine as a scheduled thread (so batches are still queued or half applied while the loader
+// builds the next ones), followed by a content comparison.  c34load: after a Load, a committer and
+// a reader race; the reader must never start at a timestamp whose commit is still being applied.
+func init() {
+	type loadState struct {
+		backup []byte
+		want   map[string]string
+		err    error
+		h      *hist
+	}
+	mkBackup := func(x *schedExec, n int, vprefix string) ([]byte, map[string]string) {
+		src, err := Open(c24Opts(x.dir+"/src", 1))
+		if err != nil {
+			panic(err)
+		}
+		defer src.Close()
+		want := map[string]string{}
+		for i := 0; i < n; i += 10 {
+			err := src.Update(func(txn *Txn) error {
+				for j := i; j < i+10 && j < n; j++ {
+					k, v := fmt.Sprintf("key-%04d", j), fmt.Sprintf("%s-%04d", vprefix, j)
+					want[k] = v
+					if err := txn.Set([]byte(k), []byte(v)); err != nil {
+						return err
+					}
+				}
+				return nil
+			})
+			if err != nil {
+				panic(err)
+			}
+		}
+		var buf bytes.Buffer
+		if _, err := src.Backup(&buf, 0); err != nil {
+			panic(err)
+		}
+		return buf.Bytes(), want
+	}
+	registerSched(&schedScenario{
+		name:   "c24load",
+		points: []string{"op", "send.enqueue", "write.vlog", "write.lsm"},
+		setup: func(x *schedExec) {
+			st := &loadState{}
+			st.backup, st.want = mkBackup(x, 250, "value")
+			o := c24Opts(x.dir+"/dst", 1)
+			o.MemTableSize = 64 << 10 // maxBatchCount is about 100: the 250 keys need three batches
+			x.db = mustOpen(o)
+			x.state = st
+		},
+		threads: func(x *schedExec) []sched.Thread {
+			st := x.state.(*loadState)
+			return []sched.Thread{{Name: "Load", Body: func() {
+				x.s.Point("op")
+				st.err = x.db.Load(bytes.NewReader(st.backup), 4)
+			}}}
+		},
+		check: func(x *schedExec) (string, string, string) {
+			st := x.state.(*loadState)
+			if st.err != nil {
+				return "", "Load: " + st.err.Error(), "backup-load-error"
+			}
+			got, s := c24Visible(x.db)
+			if s != "" {
+				return "", s, "backup-read-error"
+			}
+			missing, wrong := 0, 0
+			for k, v := range st.want {
+				g, ok := got[k]
+				if !ok {
+					missing++
+				} else if g.val != v {
+					wrong++
+				}
+			}
+			if missing > 0 || wrong > 0 || len(got) != len(st.want) {
+				return "", fmt.Sprintf("Load returned nil; of %d keys in the backup %d are missing and %d have another value (%d keys present)", len(st.want), missing, wrong, len(got)), "backup-full-state"
+			}
+			return fmt.Sprint(len(got)), "", ""
+		},
+	})
+	registerSched(&schedScenario{
+		name:   "c34load",
+		points: c03Points,
+		setup: func(x *schedExec) {
+			st := &loadState{}
+			st.backup, st.want = mkBackup(x, 20, "init") // c03Check ignores values starting with "init"
+			x.db = mustOpen(c24Opts(x.dir+"/dst", 1))
+			if err := x.db.Load(bytes.NewReader(st.backup), 4); err != nil {
+				panic(err)
+			}
+			x.state = &c03State{h: &hist{}, keys: []string{"a", "b", "key-0001"}}
+		},
+		threads: func(x *schedExec) []sched.Thread {
+			return []sched.Thread{
+				c03Committer(x, "T1", map[string]string{"a": "T1", "b": "T1"}, false),
+				c03Reader(x, "R1", 1),
+				c03Reader(x, "R2", 1),
+			}
+		},
+		check: func(x *schedExec) (string, string, string) {
+			// the loaded keys are not part of the history: only a, b are compared through the history
+			st := x.state.(*c03State)
+			st.keys = []string{"a", "b"}
+			return c03Check(x)
+		},
+	})
+}
